@@ -13,7 +13,6 @@ package core
 // with the model tree.
 
 import (
-	"bytes"
 	"context"
 	"crypto/ecdsa"
 	"fmt"
@@ -214,23 +213,61 @@ func c38GenTree(rt *rapid.T, env *c38Env, maxTrunk int) *c38Tree {
 // ---------------------------------------------------------------------------
 // event collection
 
+// c38Events collects the four feeds through ONE goroutine reading unbuffered
+// channels. Feed.Send returns only after the subscriber received the value, and the
+// chain sends its events sequentially, so the order of reception is exactly the order
+// of emission across all four feeds.
 type c38Events struct {
 	chainCh  chan ChainEvent
 	headCh   chan ChainHeadEvent
 	logsCh   chan []*types.Log
 	rmLogsCh chan RemovedLogsEvent
+	flushCh  chan chan []c38Event
+	quitCh   chan struct{}
+	doneCh   chan struct{}
 	subs     []event.Subscription
+}
+
+type c38Event struct {
+	chain   *ChainEvent
+	head    *ChainHeadEvent
+	logs    []*types.Log
+	removed []*types.Log
 }
 
 func c38Subscribe(bc *BlockChain) *c38Events {
 	ev := &c38Events{
-		chainCh:  make(chan ChainEvent, 4096),
-		headCh:   make(chan ChainHeadEvent, 4096),
-		logsCh:   make(chan []*types.Log, 4096),
-		rmLogsCh: make(chan RemovedLogsEvent, 4096),
+		chainCh:  make(chan ChainEvent),
+		headCh:   make(chan ChainHeadEvent),
+		logsCh:   make(chan []*types.Log),
+		rmLogsCh: make(chan RemovedLogsEvent),
+		flushCh:  make(chan chan []c38Event),
+		quitCh:   make(chan struct{}),
+		doneCh:   make(chan struct{}),
 	}
 	ev.subs = append(ev.subs, bc.SubscribeChainEvent(ev.chainCh), bc.SubscribeChainHeadEvent(ev.headCh),
 		bc.SubscribeLogsEvent(ev.logsCh), bc.SubscribeRemovedLogsEvent(ev.rmLogsCh))
+	go func() {
+		defer close(ev.doneCh)
+		var list []c38Event
+		for {
+			select {
+			case e := <-ev.chainCh:
+				list = append(list, c38Event{chain: &e})
+			case e := <-ev.headCh:
+				list = append(list, c38Event{head: &e})
+			case e := <-ev.logsCh:
+				list = append(list, c38Event{logs: e})
+			case e := <-ev.rmLogsCh:
+				list = append(list, c38Event{removed: e.Logs})
+			case reply := <-ev.flushCh:
+				reply <- list
+				list = nil
+			case <-ev.quitCh:
+				return
+			}
+		}
+	}()
 	return ev
 }
 
@@ -238,28 +275,36 @@ func (ev *c38Events) close() {
 	for _, s := range ev.subs {
 		s.Unsubscribe()
 	}
+	close(ev.quitCh)
+	<-ev.doneCh
 }
 
 type c38Observed struct {
+	seq     []c38Event // everything, in emission order
 	chain   []ChainEvent
 	heads   []ChainHeadEvent
 	logs    []*types.Log
 	removed []*types.Log
 }
 
+// drain returns the events emitted since the previous drain. It must be called
+// after the chain operation returned (all Sends are complete by then).
 func (ev *c38Events) drain() c38Observed {
+	reply := make(chan []c38Event, 1)
+	ev.flushCh <- reply
 	var o c38Observed
-	for len(ev.chainCh) > 0 {
-		o.chain = append(o.chain, <-ev.chainCh)
-	}
-	for len(ev.headCh) > 0 {
-		o.heads = append(o.heads, <-ev.headCh)
-	}
-	for len(ev.logsCh) > 0 {
-		o.logs = append(o.logs, <-ev.logsCh...)
-	}
-	for len(ev.rmLogsCh) > 0 {
-		o.removed = append(o.removed, (<-ev.rmLogsCh).Logs...)
+	o.seq = <-reply
+	for _, e := range o.seq {
+		switch {
+		case e.chain != nil:
+			o.chain = append(o.chain, *e.chain)
+		case e.head != nil:
+			o.heads = append(o.heads, *e.head)
+		case e.logs != nil:
+			o.logs = append(o.logs, e.logs...)
+		case e.removed != nil:
+			o.removed = append(o.removed, e.removed...)
+		}
 	}
 	return o
 }
@@ -327,6 +372,9 @@ type c38Machine struct {
 	reorgs  int
 	maxDeep int
 	st      *vs.S
+	leaves  []*c38Node
+
+	dupAnnounce int // logs announced again while still announced (observation, not asserted)
 
 	// per-action context for the event oracle
 	actKind      string
@@ -602,48 +650,77 @@ func (m *c38Machine) checkEvents(what string, old, cur []*c38Node, o c38Observed
 			m.fatalf("%s: ChainEvent for %s carries %d txs / %d receipts, block has %d", what, m.name(n), len(ce.Transactions), len(ce.Receipts), len(n.block.Transactions()))
 		}
 	}
-	// removed logs == logs of dropped blocks, new logs == logs of added blocks (as multisets)
-	want := map[string]int{}
-	for _, n := range dropped {
+	// Log events, applied in emission order to the set of logs a subscriber holds
+	// (initially the logs of the old canonical chain), must leave exactly the logs of
+	// the new canonical chain; a removal must name a log that is currently announced.
+	S := map[string]struct{}{}
+	for _, n := range old {
 		for _, l := range n.logs {
-			want[l.key(true)]++
+			S[l.key(false)] = struct{}{}
 		}
 	}
-	got := map[string]int{}
-	for _, l := range o.removed {
-		got[m.logOf(l).key(l.Removed)]++
+	strictDup := 0
+	for _, e := range o.seq {
+		for _, l := range e.removed {
+			if !l.Removed {
+				m.fatalf("%s: RemovedLogsEvent carries a log without the Removed flag: %+v", what, m.logOf(l))
+			}
+			k := m.logOf(l).key(false)
+			if _, ok := S[k]; !ok {
+				m.fatalf("%s: RemovedLogsEvent names log %s which is not an announced log of the canonical chain at that point", what, k)
+			}
+			delete(S, k)
+		}
+		for _, l := range e.logs {
+			if l.Removed {
+				m.fatalf("%s: LogsEvent carries a log with the Removed flag: %+v", what, m.logOf(l))
+			}
+			cl := m.logOf(l)
+			n, ok := m.tree.byHash[cl.BlockHash]
+			if !ok || int(cl.Index) >= len(n.logs) || n.logs[cl.Index] != cl {
+				m.fatalf("%s: LogsEvent carries log %s which is not a log of a generated block", what, cl.key(false))
+			}
+			k := cl.key(false)
+			if _, ok := S[k]; ok {
+				strictDup++ // announced again without an intervening removal
+			}
+			S[k] = struct{}{}
+		}
 	}
-	if d := c38DiffBags(want, nil, got); d != "" {
-		m.fatalf("%s: RemovedLogsEvent content differs from the logs of the dropped blocks %s:\n%s", what, m.names(dropped), d)
-	}
-	want = map[string]int{}
-	opt := map[string]int{}
-	for _, n := range added {
+	want := map[string]struct{}{}
+	tolerated := map[string]struct{}{}
+	for _, n := range cur {
 		for _, l := range n.logs {
 			if m.actKind == "insert" && m.preWithState[n] && vs.Known("TestVerifC38Machine", c38ClassKnownNoLogs) {
 				// known finding: blocks already stored with state that InsertChain makes
 				// canonical again through writeKnownBlock do not get their logs announced
-				opt[l.key(false)]++
+				tolerated[l.key(false)] = struct{}{}
+			}
+			want[l.key(false)] = struct{}{}
+		}
+	}
+	var diff []string
+	for k := range want {
+		if _, ok := S[k]; !ok {
+			if _, tol := tolerated[k]; tol {
 				m.st.Excluded()
 				continue
 			}
-			want[l.key(false)]++
+			diff = append(diff, "  never announced: "+k)
 		}
 	}
-	if m.actKind == "setCanonical" && len(added) == 0 && vs.Known("TestVerifC38Machine", c38ClassAncestorRelog) {
-		// known finding: SetCanonical to an ancestor of the head announces the logs of
-		// the (already canonical) target block again
-		for _, l := range newHead.logs {
-			opt[l.key(false)]++
-			m.st.Excluded()
+	for k := range S {
+		if _, ok := want[k]; !ok {
+			diff = append(diff, "  still announced (no RemovedLogsEvent): "+k)
 		}
 	}
-	got = map[string]int{}
-	for _, l := range o.logs {
-		got[m.logOf(l).key(l.Removed)]++
+	if len(diff) > 0 {
+		sort.Strings(diff)
+		m.fatalf("%s: after applying the emitted log events in order, a subscriber's log set differs from the logs of the new canonical chain (dropped %s, added %s):\n%s",
+			what, m.names(dropped), m.names(added), strings.Join(diff, "\n"))
 	}
-	if d := c38DiffBags(want, opt, got); d != "" {
-		m.fatalf("%s: LogsEvent content differs from the logs of the newly canonical blocks %s (dropped %s):\n%s", what, m.names(added), m.names(dropped), d)
+	if strictDup > 0 {
+		m.dupAnnounce += strictDup
 	}
 	return dropped, added
 }
@@ -656,39 +733,11 @@ func (m *c38Machine) names(ns []*c38Node) string {
 	return "[" + strings.Join(s, " ") + "]"
 }
 
-// c38DiffBags compares a multiset of emitted logs with the expected one; opt holds
-// additional occurrences that are tolerated (only ever non-empty for classes listed in
-// known_findings.json).
-func c38DiffBags(want, opt, got map[string]int) string {
-	keys := map[string]struct{}{}
-	for k := range want {
-		keys[k] = struct{}{}
-	}
-	for k := range opt {
-		keys[k] = struct{}{}
-	}
-	for k := range got {
-		keys[k] = struct{}{}
-	}
-	var ks []string
-	for k := range keys {
-		ks = append(ks, k)
-	}
-	sort.Strings(ks)
-	var b bytes.Buffer
-	for _, k := range ks {
-		if got[k] < want[k] || got[k] > want[k]+opt[k] {
-			fmt.Fprintf(&b, "  log %s: emitted %d times, expected %d\n", k, got[k], want[k])
-		}
-	}
-	return b.String()
-}
-
 // Classes of suspected geth defects (see notes/C38.md); only honoured when the lead
 // lists them in known_findings.json.
 const (
-	c38ClassAncestorRelog = "setcanonical-ancestor-relogs-head"
 	c38ClassKnownNoLogs   = "insertchain-known-blocks-no-logs"
+	c38ClassHeaderAhead   = "head-header-ahead-stale-canonical-above"
 )
 
 // known returns the tree nodes whose block is stored in the chain database.
@@ -751,7 +800,16 @@ func c38Run(rt *rapid.T, st *vs.S, maxTrunk, maxActions int) {
 		m.cfg.SnapshotLimit = 0
 	}
 	c.Classf("cfg:%s/%s/limit%d/snap%v", env.variant, scheme, m.limit, m.cfg.SnapshotLimit > 0)
-	m.logf("tree: %d blocks, %d txs, max height %d", len(tree.nodes), len(tree.txOrder), tree.maxNum)
+	hasChild := map[*c38Node]bool{}
+	for _, n := range tree.nodes {
+		hasChild[n.parent] = true
+	}
+	for _, n := range tree.nodes {
+		if !hasChild[n] {
+			m.leaves = append(m.leaves, n)
+		}
+	}
+	m.logf("tree: %d blocks, %d txs, max height %d, %d leaves", len(tree.nodes), len(tree.txOrder), tree.maxNum, len(m.leaves))
 	m.open()
 	defer func() {
 		m.ev.close()
@@ -762,6 +820,9 @@ func c38Run(rt *rapid.T, st *vs.S, maxTrunk, maxActions int) {
 	nActions := rapid.IntRange(4, maxActions).Draw(rt, "nActions")
 	for a := 0; a < nActions; a++ {
 		kind := rapid.SampledFrom([]string{"insert", "insert", "insert", "insert", "insertNoHead", "setCanonical", "setCanonical", "setHead", "setHeadTime", "restart"}).Draw(rt, "action")
+		if m.bc.CurrentHeader().Number.Uint64() == 0 && kind != "insertNoHead" && kind != "restart" {
+			kind = "insert" // nothing to rewind or to switch to yet
+		}
 		old := m.canon
 		reorgAction := false
 		m.actKind, m.actTarget = kind, nil
@@ -773,24 +834,52 @@ func c38Run(rt *rapid.T, st *vs.S, maxTrunk, maxActions int) {
 		}
 		switch kind {
 		case "insert":
-			tip := tree.nodes[rapid.IntRange(0, len(tree.nodes)-1).Draw(rt, "tip")]
-			path := tree.chainTo(tip)[1:]
-			k := rapid.IntRange(1, len(path)).Draw(rt, "seglen")
-			if rapid.IntRange(0, 2).Draw(rt, "short") == 0 && k > 3 {
-				k = rapid.IntRange(1, 3).Draw(rt, "seglen2")
+			var tip *c38Node
+			if rapid.IntRange(0, 2).Draw(rt, "tipKind") > 0 {
+				tip = m.leaves[rapid.IntRange(0, len(m.leaves)-1).Draw(rt, "leaf")]
+			} else {
+				tip = tree.nodes[rapid.IntRange(0, len(tree.nodes)-1).Draw(rt, "tip")]
 			}
-			seg := path[len(path)-k:]
+			path := tree.chainTo(tip)[1:]
+			firstUnknown := len(path)
+			for i, n := range path {
+				if !m.bc.HasBlock(n.hash(), n.num()) {
+					firstUnknown = i
+					break
+				}
+			}
+			start := firstUnknown
+			if start > len(path)-1 {
+				start = len(path) - 1
+			}
+			mode := rapid.SampledFrom([]string{"extend", "extend", "extend", "extend", "extend", "extend", "overlap", "overlap", "gap", "whole"}).Draw(rt, "insertMode")
+			switch mode {
+			case "overlap":
+				start = rapid.IntRange(0, start).Draw(rt, "segStart")
+			case "gap":
+				if firstUnknown < len(path)-1 {
+					start = rapid.IntRange(firstUnknown+1, len(path)-1).Draw(rt, "segStart")
+				}
+			case "whole":
+				start = 0
+			}
+			end := len(path) - 1
+			if rapid.IntRange(0, 3).Draw(rt, "partial") == 0 {
+				end = rapid.IntRange(start, len(path)-1).Draw(rt, "segEnd")
+			}
+			seg := path[start : end+1]
 			blocks := make(types.Blocks, len(seg))
 			for i, n := range seg {
 				blocks[i] = n.block
 			}
 			idx, err := m.bc.InsertChain(blocks)
-			m.logf("%d InsertChain(%s .. %s) -> %d, %v", a, m.name(seg[0]), m.name(tip), idx, err)
+			m.logf("%d InsertChain(%s .. %s) [%s, %d blocks] -> %d, %v", a, m.name(seg[0]), m.name(seg[len(seg)-1]), mode, len(seg), idx, err)
 			if err != nil {
 				c.Class("insert:error")
 			} else {
 				c.Class("insert:ok")
 			}
+			c.Class("insert:mode-" + mode)
 			reorgAction = true
 		case "insertNoHead":
 			// preconditions of the only production caller (engine API newPayload): the
@@ -858,6 +947,15 @@ func c38Run(rt *rapid.T, st *vs.S, maxTrunk, maxActions int) {
 					continue
 				}
 			}
+			if h := m.bc.GetHeaderByNumber(target); h != nil && !m.bc.HasState(h.Root) && vs.Known("TestVerifC38Machine", c38ClassHeaderAhead) {
+				// known finding: rewinding to a block without state leaves the head header
+				// above the head block; a later head update on another fork then keeps the
+				// old canonical markers above the new head. Avoid the trigger.
+				st.Excluded()
+				c.Class("setHead:stateless-target-skipped-known")
+				m.logf("%d setHead(%d) skipped: target state missing (known finding)", a, target)
+				continue
+			}
 			// transactions of every stored block above the target may keep a stale lookup entry
 			for _, n := range m.known() {
 				if n.num() > target {
@@ -911,6 +1009,9 @@ func c38Run(rt *rapid.T, st *vs.S, maxTrunk, maxActions int) {
 	desc := fmt.Sprintf("%s|%s|%d|%s", env.variant, scheme, m.limit, strings.Join(m.trace, ";"))
 	c.NonTrivial(m.deepOK, desc)
 	c.Classf("reorgs:%s", c38Bucket(m.reorgs))
+	if m.dupAnnounce > 0 {
+		c.Class("obs:logs-reannounced-without-removal")
+	}
 	c.Sample(m.deepOK, func() any {
 		return map[string]any{"variant": env.variant, "scheme": scheme, "txLookupLimit": m.limit, "trace": m.trace}
 	})
